@@ -1163,7 +1163,19 @@ class OFConnection (object):
         io_worker.consume_receive_buf(message_length)
         continue
 
-      new_offset, msg_obj = self.unpackers[ofp_type](message, 0)
+      try:
+        # (Only hand over this message's bytes so that a bad embedded length
+        # can't make the unpacker read into whatever follows.)
+        new_offset, msg_obj = unpacker(message[:message_length], 0)
+      except Exception as e:
+        # Malformed body.  Tell the controller, skip the message, carry on.
+        self.log.error("Couldn't unpack message of type %s: %s", ofp_type, e)
+        err = ofp_error(type=OFPET_BAD_REQUEST, code=OFPBRC_BAD_LEN)
+        err.xid = self._extract_message_xid(message)
+        err.data = message[:message_length]
+        self.send(err)
+        io_worker.consume_receive_buf(message_length)
+        continue
       if new_offset != message_length:
         info = (msg_obj, message_length, new_offset)
         r = self._error_handler(self.ERR_BAD_LENGTH, info)
